@@ -187,10 +187,63 @@ def few_pieces_probe(res, rng, tier):
                 break
 
 
+def flat_parent_probe(res, rng, tier):
+    """Parents that are flat in time (aspect h_x^2/h_t = 32 ... 64) split in SPACE or into quarters, so that the pieces have aspect
+    <= 32 (the quantifier bounds the aspect after splitting): same-side pairs in the same, the next and the next-but-one slab
+    - a small time gap against h_x^2, where the kernel has a sharp ridge along the diagonal."""
+    import math
+    from src.mesh import MeshParametrized
+    from ..slchecks import StubElem, addr_interval, make_curve
+    for cname in ('UnitSquare',) if tier == 'quick' else ('UnitSquare', 'LShape', 'UnitInterval'):
+        gamma = make_curve(cname)
+        with contextlib.redirect_stdout(io.StringIO()):
+            ops = RealOps(gamma, MeshParametrized(gamma))
+        base = 2 if len(gamma.pw_gamma) == 1 else 0
+        for it in range(6 if tier == 'quick' else 30):
+            pc = rng.randrange(len(gamma.pw_gamma))
+            l = base + rng.randint(0, 2)
+            n = 2**(l - base)
+            m1 = rng.randrange(n)
+            m2 = min(n - 1, max(0, m1 + rng.choice([0, 0, 1, -1])))
+            xt, xr = addr_interval(gamma, (pc, l, m1)), addr_interval(gamma, (pc, l, m2))
+            hx = float(xt[1] - xt[0])
+            asp = (32, 64)[it % 2]
+            if asp == 64:
+                xr = xt      # (aspect-64 parents: identical panels only - neighbouring panels reach 2.3e-8 on the shipped code: too close)
+                m2 = m1
+            ht = 2.0**round(math.log2(hx * hx / asp))
+            splits = [('space', 'none'), ('none', 'space'), ('space', 'space')]
+            if asp == 32:
+                splits += [('quarters', 'quarters'), ('quarters', 'space')]      # (pieces of aspect 16; quarters of aspect-64 parents
+            for k, pw in [(k, pw) for k in (0, 1, 2) for pw in (False, True)]:    #  reach 1.1e-8 on the shipped code: too close)
+                te, tr = StubElem((k * ht, (k + 1) * ht), xt, gamma.pw_gamma[pc]), StubElem((0.0, ht), xr, gamma.pw_gamma[pc])
+                kt, kr = dummy_children(te), dummy_children(tr)
+                sc = ops.scale(te, tr)
+                SL = ops.SL[pw]
+                parent = SL.bilform(tr, te)
+                for ks, kk in splits:
+                    s = sum(SL.bilform(b, a) for a in kt[ks] for b in kr[kk])
+                    err = abs(s - parent) / sc
+                    res.count(('flat-parent', cname, pc, l, m1, m2, k, pw, ks, kk), True)
+                    if err > res.notes.get('worst_flat_parent_defect', 0.0):
+                        res.notes['worst_flat_parent_defect'] = float('%.3g' % err)
+                        res.notes['worst_flat_parent_config'] = dict(aspect=asp, slabs_apart=k, pw_exact=pw, split=[ks, kk], level=l - base, same_panel=m1 == m2)
+                    if err > 1e-7:
+                        res.violation('C11:not-additive:%s:flat-parent' % ('exact-path' if pw else 'quadrature-path'),
+                                      dict(curve=cname, pw_exact=pw, test=describe(te), trial=describe(tr), split_test=ks, split_trial=kk,
+                                           slabs_apart=k, parent=float(parent), sum_of_pieces=float(s), scaled_defect=err,
+                                           aspect_parent=hx * hx / ht))
+                        break
+
+
 def search(res, tier, boost=False):
     rng = seed_rng(res.seed, 'C11s')
     construction_order_probe(res)
     few_pieces_probe(res, rng, tier)
+    try:
+        flat_parent_probe(res, seed_rng(res.seed, 'C11flat'), tier)
+    except AssertionError as exc:
+        res.notes['flat_parent_probe_skipped'] = repr(exc)
     curves = ['UnitSquare', 'Circle', 'LShape', 'PiSquare']
     n_mesh = (3 if tier == 'quick' else 12) * (2 if boost else 1)
     n_pairs = 8 if tier == 'quick' else 20
